@@ -2,5 +2,5 @@ package config
 
 const (
 	c37MinLen = 5
-	c37MaxLen = 6
+	c37MaxLen = 5
 )
